@@ -214,8 +214,41 @@ def frames_of(views):
 
 
 def ack_prefix(pup):
+    """ACK of everything R sent in the application space, except the packets the puppet pretends never arrived
+    (pup.withheld: packets that carried a window update; R declares them lost once three later ones are acknowledged)."""
     lg = pup.tap.largest.get((pup.victim_name, "A"))
-    return F.f_ack([(0, lg)]) if lg is not None else b""
+    if lg is None:
+        return b""
+    holes = sorted(n for n in getattr(pup, "withheld", ()) if 0 <= n <= lg)
+    if not holes:
+        return F.f_ack([(0, lg)])
+    ranges, lo = [], 0
+    for n in holes:
+        if n > lo:
+            ranges.append((lo, n - 1))
+        lo = n + 1
+    if lo <= lg:
+        ranges.append((lo, lg))
+    return F.f_ack(ranges[-16:]) if ranges else b""
+
+
+WINDOW_UPDATES = ("MAX_DATA", "MAX_STREAM_DATA", "MAX_STREAMS_BIDI", "MAX_STREAMS_UNI", "MAX_STREAMS")
+
+
+def withhold_updates(pup, views, res):
+    """Lossy histories: the puppet never acknowledges (most of) R's packets that carry MAX_DATA / MAX_STREAM_DATA /
+    MAX_STREAMS.  It did see the frames — the limits count as advertised — but R's loss detection will declare the
+    packets lost while processing a later ACK that sits in front of in-limit STREAM / RESET_STREAM frames of the same
+    packet, i.e. before R had a chance to transmit again."""
+    rng = getattr(pup, "lossy_rng", None)
+    if rng is None:
+        return
+    for v in views:
+        if v.error is None and v.space == "A" and v.pn is not None and any(f["name"] in WINDOW_UPDATES for f in v.frames):
+            res.count("o1_window_update_packets_seen")
+            if rng.random() < 0.6:
+                pup.withheld.add(v.pn)
+                res.count("o1_window_update_packets_never_acked")
 
 
 def r_closed(pup, views):
@@ -582,6 +615,7 @@ def step_packet(res, case, pup, model, ops, R, no_cycle=False):
         res.count("obs_api_raised_" + type(exc.exc).__name__)  # totality is C05's property
         return ("api", False), verdicts
     model.on_r_frames(frames_of(views))
+    withhold_updates(pup, views, res)
     if not no_cycle:
         model.on_r_cycled()
     closed = r_closed(pup, views)
@@ -604,13 +638,18 @@ def run_history(pup, model, seed, case, max_len=200):
     last_op = None
     closed = None
     step = 0
+    pup.withheld = set()
+    r_loss = random.Random("c07-lossy/%s" % seed)
+    pup.lossy_rng = r_loss if r_loss.random() < 0.35 else None
+    if pup.lossy_rng is not None:
+        res.count("o1_lossy_histories")
     for step in range(1, n_target + 1):
         boundary = step >= kill_at and rng.random() < 0.6
         if boundary and rng.random() < 0.5:
             kill_at = step + rng.randrange(1, 30)  # survived probes: keep going for a while
         nops = rng.choice([1, 1, 1, 1, 2, 2, 3])
         ops = []
-        room = MAX_PAYLOAD - 60
+        room = MAX_PAYLOAD - max(60, len(ack_prefix(pup)) + 16)
         for _ in range(nops):
             op = None
             for _try in range(25):
